@@ -128,6 +128,20 @@ def effHostText (e : Env) (host : Option Text) : Text :=
   | none, some h => h
   | none, none => e.serverName
 
+/-- the optional `:port` split off a host text, bracket-aware (`_partial_application_url`, a63b542):
+`[…]` + optional `:port` — the colons inside the brackets belong to the host, anything else after `]` is dropped;
+a `[` without `]` is left whole; otherwise the text is split at its first `:`. -/
+def splitHostPort (h : Text) : Text × Option Text :=
+  match h with
+  | '[' :: _ =>
+    (match cut ']' h with
+     | (a, some rest) =>
+       (a ++ [']'], match rest with
+                    | ':' :: p => some p
+                    | _ => none)
+     | (_, none) => (h, none))
+  | _ => cut ':' h
+
 /-- scheme, host and optional port text of `_partial_application_url`, before the script name is appended -/
 def partialParts (e : Env) (scheme host port : Option Text) : Text × Text × Option Text :=
   let sp : Text × Option Text :=
@@ -139,16 +153,14 @@ def partialParts (e : Env) (scheme host port : Option Text) : Text × Text × Op
       (s, port2)
   let scheme := sp.1
   let host0 : Text := effHostText e host
+  let hs := splitHostPort host0
   let hp : Text × Text :=
     match sp.2 with
     | none =>
-      (match cut ':' host0 with
-       | (h, some p) => (h, p)
-       | (_, none) => (host0, e.serverPort))
-    | some p =>
-      (match cut ':' host0 with
-       | (h, some _) => (h, p)
-       | (_, none) => (host0, p))
+      (match hs.2 with
+       | some p => (hs.1, p)
+       | none => (hs.1, e.serverPort))
+    | some p => (hs.1, p)
   let port : Option Text :=
     if scheme = sHttps then (if hp.2 = p443 then none else some hp.2)
     else if scheme = sHttp then (if hp.2 = p80 then none else some hp.2)
@@ -403,14 +415,81 @@ def splitNetloc (url : Text) : Text × Text :=
   | '/' :: '/' :: r => (r.takeWhile notNetlocDelim, r.dropWhile notNetlocDelim)
   | _ => ([], url)
 
-/-- `urllib.parse.urlsplit(url)`; `none` = `ValueError` (unbalanced `[`/`]` in the netloc).
-Not modelled: `_check_bracketed_host` (a balanced bracket pair is accepted) and the NFKC check of a non-ASCII netloc. -/
+/-- `ipaddress.IPv4Address._parse_octet`: 1–3 ASCII digits, no leading zero unless `0`, ≤ 255 -/
+def octetOk (t : Text) : Bool :=
+  t ≠ [] && t.all (fun c => 48 ≤ c.toNat && c.toNat ≤ 57) && t.length ≤ 3 &&
+  (t = ['0'] || t.head? != some '0') && (t.foldl (fun n c => 10 * n + (c.toNat - 48)) 0) ≤ 255
+
+/-- `ipaddress.IPv4Address(s)` accepts `s` -/
+def ipv4Ok (t : Text) : Bool :=
+  let os := splitOn '.' t
+  t ≠ [] && os.length = 4 && os.all octetOk
+
+/-- `ipaddress._BaseV6._parse_hextet` (an empty hextet fails in `int('', 16)`) -/
+def hextetOk (t : Text) : Bool := t ≠ [] && t.all isHexC && t.length ≤ 4
+
+/-- `ipaddress.IPv6Address(s)` accepts `s` (`_split_scope_id` + `_ip_int_from_string`) -/
+def ipv6Ok (s : Text) : Bool :=
+  if s.contains '/' then false else
+  let sc := cut '%' s
+  let scopeOk : Bool := match sc.2 with
+    | none => true
+    | some z => z ≠ [] && !z.contains '%'
+  let addr := sc.1
+  let parts0 := splitOn ':' addr
+  if !scopeOk || addr = [] || parts0.length < 3 then false else
+  let last := parts0.getLast?.getD []
+  -- an IPv4-style suffix is replaced by two (valid) hextets
+  let v4 := last.contains '.'
+  if v4 && !ipv4Ok last then false else
+  let parts := if v4 then parts0.dropLast ++ [['0'], ['0']] else parts0
+  let n := parts.length
+  if n > 9 then false else
+  let first := parts.head?.getD []
+  let lastP := parts.getLast?.getD []
+  let middle := (parts.drop 1).dropLast
+  let skips := (middle.filter (fun p => p.isEmpty)).length
+  if skips > 1 then false
+  else if skips = 1 then
+    let k := 1 + (middle.takeWhile (fun p => !p.isEmpty)).length      -- index of the '::'
+    let hi0 := k
+    let lo0 := n - k - 1
+    if first.isEmpty && hi0 - 1 ≠ 0 then false
+    else if lastP.isEmpty && lo0 - 1 ≠ 0 then false
+    else
+      let hi := if first.isEmpty then hi0 - 1 else hi0
+      let lo := if lastP.isEmpty then lo0 - 1 else lo0
+      if hi + lo ≥ 8 then false
+      else (parts.take hi).all hextetOk && ((parts.drop (n - lo)).all hextetOk)
+  else
+    n = 8 && !first.isEmpty && !lastP.isEmpty && parts.all hextetOk
+
+/-- `urllib.parse._check_bracketed_host`: IPvFuture `v` HEX+ `.` 1+ characters, or an IPv6 address
+(an IPv4 address in brackets is refused; a text is never both) -/
+def checkBracketedHost (h : Text) : Bool :=
+  match h with
+  | 'v' :: r =>
+    let hx := r.takeWhile isHexC
+    (match r.dropWhile isHexC with
+     | '.' :: rest => hx ≠ [] && rest ≠ [] && !rest.contains '\n'
+     | _ => false)
+  | _ => ipv6Ok h
+
+/-- the bracket rules of `urlsplit` for a netloc: `[` and `]` only together, and then the text between the first
+`[` and the next `]` must pass `_check_bracketed_host` -/
+def netlocOk (n : Text) : Bool :=
+  if (n.contains '[' && !n.contains ']') || (n.contains ']' && !n.contains '[') then false
+  else if n.contains '[' && n.contains ']' then checkBracketedHost (cut ']' ((cut '[' n).2.getD [])).1
+  else true
+
+/-- `urllib.parse.urlsplit(url)`; `none` = `ValueError` (unbalanced `[`/`]` in the netloc, or a bracketed host that
+is neither IPv6 nor IPvFuture).  Not modelled: the NFKC check of a non-ASCII netloc. -/
 def urlsplit (url : Text) : Option Split :=
   let url := (url.dropWhile isC0OrSpace).filter (fun c => !isTabNl c)
   let su := splitScheme url
   let nu := splitNetloc su.2
   let netloc := nu.1
-  if (netloc.contains '[' && !netloc.contains ']') || (netloc.contains ']' && !netloc.contains '[') then none
+  if !netlocOk netloc then none
   else
     let fu := cut '#' nu.2
     let qu := cut '?' fu.1
@@ -449,10 +528,10 @@ def expand : List (Text × QVal) → List (Text × Text)
 def defaultPort (scheme : Text) : Option Text :=
   if scheme = sHttps then some p443 else if scheme = sHttp then some p80 else none
 
-/-- the port wanted, by priority: `_port`; the default port of an explicit `_scheme`; a port written in the host
-text; `SERVER_PORT` -/
+/-- the port wanted, by priority: `_port`; the default port of an explicit `_scheme`; a port written after the host
+(`name:port`, `[v6]:port`); `SERVER_PORT` -/
 def effPort (e : Env) (scheme host port : Option Text) : Text :=
-  match port, scheme.bind defaultPort, (cut ':' (effHostText e host)).2 with
+  match port, scheme.bind defaultPort, (splitHostPort (effHostText e host)).2 with
   | some p, _, _ => p
   | none, some d, _ => d
   | none, none, some hp => hp
@@ -463,7 +542,7 @@ def effPort (e : Env) (scheme host port : Option Text) : Text :=
 def wanted (e : Env) (scheme host port : Option Text) : Text × Text × Option Text :=
   let s := scheme.getD e.scheme
   let p := effPort e scheme host port
-  (s, (cut ':' (effHostText e host)).1, if defaultPort s = some p then none else some p)
+  (s, (splitHostPort (effHostText e host)).1, if defaultPort s = some p then none else some p)
 
 /-- the same string with `scheme://netloc` removed, as found by the standard parser -/
 def minusAuthority (url : Text) : Option Text :=
